@@ -112,8 +112,10 @@ class Event:
         chain = [s for s, _ in self.stack] + ([self.func.short] if self.func is not None else [])
         for name in reversed(chain):
             base = name.split('#')[0]
-            if base in BASELINE_FUNCS or '<locals>' in name and name.split('.<locals>')[0] in BASELINE_FUNCS:
+            if base in BASELINE_FUNCS:
                 return name
+            if '<locals>' in name and name.split('.<locals>')[0].split('#')[0] in BASELINE_FUNCS:
+                return name.split('.<locals>')[0]        # closures and lambdas belong to the function that defines them
         return chain[-1] if chain else None
 
     def text(self):
@@ -142,6 +144,51 @@ class Frame_:
 class Result:
     def __init__(self, ret, env, heap, events, live, returns):
         self.ret, self.env, self.heap, self.events, self.live, self.returns = ret, env, heap, events, live, returns
+
+
+_ROT = {}
+
+
+def _rotate_loop_and_a_half(st):
+    """while True: S1; if c: break|return v; S2      ==      S1; while not c: S2; S1     [; return v]
+    (S1 free of break/continue/return, the exit test the only break/return at the level of this loop, no `continue` in S2)"""
+    if id(st) in _ROT:
+        return _ROT[id(st)][1]
+    out = None
+    try:
+        if isinstance(st.test, ast.Constant) and st.test.value is True and not st.orelse:
+            def level(stmts):
+                for s_ in stmts:
+                    for n in _walk_same_loop(s_):
+                        yield n
+            ks = [i for i, b in enumerate(st.body) if isinstance(b, ast.If) and not b.orelse and len(b.body) == 1
+                  and isinstance(b.body[0], (ast.Break, ast.Return))]
+            if len(ks) >= 1:
+                k = ks[0]
+                s1, exit_if, s2 = st.body[:k], st.body[k], st.body[k + 1:]
+                bad1 = any(isinstance(n, (ast.Break, ast.Continue, ast.Return)) for n in level(s1))
+                bad2 = any(isinstance(n, (ast.Break, ast.Continue)) for n in level(s2))
+                if s1 and not bad1 and not bad2:
+                    test = ast.copy_location(ast.UnaryOp(op=ast.Not(), operand=exit_if.test), exit_if.test)
+                    loop = ast.copy_location(ast.While(test=test, body=list(s2) + list(s1), orelse=[]), st)
+                    ast.fix_missing_locations(loop)
+                    post = [exit_if.body[0]] if isinstance(exit_if.body[0], ast.Return) else []
+                    out = (list(s1), loop, post)
+    except Exception:
+        out = None
+    _ROT[id(st)] = (st, out)
+    return out
+
+
+def _walk_same_loop(node):
+    """nodes of a statement that belong to the same loop level (nested loops and functions are not entered)"""
+    yield node
+    if isinstance(node, (ast.For, ast.While, ast.FunctionDef, ast.Lambda, ast.ClassDef)):
+        return
+    for ch in ast.iter_child_nodes(node):
+        if isinstance(ch, (ast.For, ast.While, ast.FunctionDef, ast.Lambda, ast.ClassDef)):
+            continue
+        yield from _walk_same_loop(ch)
 
 
 class Interp:
@@ -634,6 +681,16 @@ class Interp:
         return T.mk_or([T.mk_and([c, live_t]), T.mk_and([T.mk_not(c), live_e])])
 
     def st_While(self, st, fr):
+        rot = _rotate_loop_and_a_half(st)
+        if rot is not None:
+            pre, loop, post = rot
+            live = self.exec_block(pre, fr)
+            if live.key == FALSE.key:
+                return live
+            l2 = self._loop(loop, fr, 'while')
+            if post:
+                return self.exec_block(post, fr)
+            return l2
         return self._loop(st, fr, 'while')
 
     def _trip(self, it):
